@@ -218,15 +218,32 @@ def lemma_apply_ctx(fn, a, b, c, d):
     pass
 
 
-@C.lemma([('d', 'Obj')], ensures=['size(d) >= 1'], triggers=['size(d)'])
+@C.lemma([('d', 'Obj')], ensures=['size(d) >= 1'], triggers=['size(d)'], decreases=['rank(d)'], group='size')
 def lemma_size_pos(d):
-    pass
+    if isinstance(d, Concat):
+        lemma_sizelist_nonneg(d.docs)
+    elif isinstance(d, Fill):
+        lemma_sizelist_nonneg(d.docs)
+    elif isinstance(d, Nest):
+        lemma_size_pos(d.doc)
+    elif isinstance(d, Group):
+        lemma_size_pos(d.doc)
+    elif isinstance(d, AlwaysBreak):
+        lemma_size_pos(d.doc)
+    elif isinstance(d, Annotated):
+        lemma_size_pos(d.doc)
+    elif isinstance(d, FlatChoice):
+        lemma_size_pos(d._when_broken)
+        lemma_size_pos(d._when_flat)
+    elif isinstance(d, Contextual):
+        lemma_apply_ctx(d.fn, 0, 0, 0, 0)
 
 
-@C.lemma([('ds', 'ObjList')], ensures=['sizelist(ds) >= 0'], triggers=['sizelist(ds)'], decreases=['len(ds)'])
+@C.lemma([('ds', 'ObjList')], ensures=['sizelist(ds) >= 0'], triggers=['sizelist(ds)'], decreases=['rank(ds)'], group='size')
 def lemma_sizelist_nonneg(ds):
     if not ds:
         return
+    lemma_size_pos(ds[0])
     lemma_sizelist_nonneg(ds[1:])
 
 
